@@ -103,3 +103,120 @@ pub fn to_u512(v: U256) -> U512 {
 pub fn total_balance(d: &SimDisk) -> U512 {
     d.accounts.values().fold(U512::ZERO, |acc, a| acc + to_u512(a.balance))
 }
+
+// ---------------------------------------------------------------- transaction validity (C02)
+
+#[derive(Clone, Copy, Debug, PartialEq, Eq)]
+pub enum Verdict {
+    Accept,
+    RejectTx,
+    RejectHeader,
+}
+
+/// Validity predicate written from the EIP texts (EIP-155, 2, 2028, 2930, 1559, 3607, 3860,
+/// 4844, 7623, 7702, block gas limit). Returns the verdict and the name of one violated
+/// rule (several can fail at once; only the class is compared with revm).
+pub fn validity(
+    spec: SpecId,
+    chain_id: u64,
+    code_size_limit: Option<usize>,
+    block: &BlockSpec,
+    tx: &TxSpec,
+    sender: Option<&crate::disk::DiskAccount>,
+) -> (Verdict, &'static str) {
+    use Verdict::*;
+    if on(spec, SpecId::MERGE) && block.prevrandao.is_none() {
+        return (RejectHeader, "prevrandao");
+    }
+    if on(spec, SpecId::CANCUN) && block.excess_blob_gas.is_none() {
+        return (RejectHeader, "excess_blob_gas");
+    }
+    if let Some(c) = tx.chain_id {
+        if c != chain_id {
+            return (RejectTx, "chain_id");
+        }
+    }
+    if U256::from(tx.gas_limit) > block.gas_limit {
+        return (RejectTx, "block_gas_limit");
+    }
+    if !on(spec, SpecId::BERLIN) && !tx.access_list.is_empty() {
+        return (RejectTx, "access_list_before_berlin");
+    }
+    if on(spec, SpecId::LONDON) {
+        if let Some(p) = tx.priority_fee {
+            if p > tx.gas_price {
+                return (RejectTx, "priority_fee_above_max_fee");
+            }
+        }
+        if effective_gas_price(spec, tx, block) < block.basefee {
+            return (RejectTx, "fee_below_basefee");
+        }
+    }
+    if on(spec, SpecId::SHANGHAI) && tx.to.is_none() {
+        let max_initcode = code_size_limit.map(|l| l.saturating_mul(2)).unwrap_or(2 * 0x6000);
+        if tx.data.len() > max_initcode {
+            return (RejectTx, "initcode_size");
+        }
+    }
+    let has_blob_fields = tx.max_fee_per_blob_gas.is_some() || !tx.blob_hashes.is_empty();
+    if !on(spec, SpecId::CANCUN) && has_blob_fields {
+        return (RejectTx, "blob_before_cancun");
+    }
+    if let Some(max) = tx.max_fee_per_blob_gas {
+        if blob_gasprice(spec, block.excess_blob_gas.unwrap_or(0)) > max {
+            return (RejectTx, "blob_price_above_max");
+        }
+        if tx.blob_hashes.is_empty() {
+            return (RejectTx, "no_blobs");
+        }
+        if tx.to.is_none() {
+            return (RejectTx, "blob_create");
+        }
+        if tx.blob_hashes.iter().any(|h| h[0] != 0x01) {
+            return (RejectTx, "blob_version");
+        }
+        let max_blobs = if on(spec, SpecId::PRAGUE) { 9 } else { 6 };
+        if tx.blob_hashes.len() > max_blobs {
+            return (RejectTx, "too_many_blobs");
+        }
+    } else if !tx.blob_hashes.is_empty() {
+        return (RejectTx, "blob_hashes_without_fee");
+    }
+    if !on(spec, SpecId::PRAGUE) && tx.auth_list.is_some() {
+        return (RejectTx, "auth_list_before_prague");
+    }
+    if let Some(l) = &tx.auth_list {
+        if l.is_empty() {
+            return (RejectTx, "empty_auth_list");
+        }
+        if has_blob_fields {
+            return (RejectTx, "auth_list_with_blob_fields");
+        }
+    }
+    if intrinsic_gas(spec, tx) > tx.gas_limit {
+        return (RejectTx, "intrinsic_gas");
+    }
+    if floor_gas(spec, tx) > tx.gas_limit {
+        return (RejectTx, "floor_gas");
+    }
+    let empty = crate::disk::DiskAccount::default();
+    let s = sender.unwrap_or(&empty);
+    if !s.code.is_empty() && !(s.code.len() == 23 && s.code.starts_with(&[0xef, 0x01, 0x00])) {
+        return (RejectTx, "sender_with_code");
+    }
+    if let Some(n) = tx.nonce {
+        if n != s.nonce {
+            return (RejectTx, "nonce");
+        }
+    }
+    let mut cost = to_u512(tx.gas_price) * U512::from(tx.gas_limit) + to_u512(tx.value);
+    if on(spec, SpecId::CANCUN) {
+        if let Some(max) = tx.max_fee_per_blob_gas {
+            cost += to_u512(max) * U512::from(GAS_PER_BLOB * tx.blob_hashes.len() as u64);
+        }
+    }
+    if cost >= (U512::from(1u64) << 256) || cost > to_u512(s.balance) {
+        return (RejectTx, "balance");
+    }
+    (Accept, "")
+}
